@@ -11,6 +11,7 @@ import (
 	pb "github.com/xuperchain/xupercore/bcs/ledger/xledger/xldgpb"
 
 	"verif/ev"
+	"verif/hist"
 	"verif/mutate"
 	sn "verif/simnode"
 )
@@ -231,6 +232,7 @@ func main() {
 		}
 	}
 	enginePart(r)
+	hist.HostilePeerRounds(r, "integrity")
 	// a block without transactions: the statement quantifies over 0..n transactions; a node never formats one
 	r.Floor("blocks", 10)
 	r.Floor("mutants", 1500)
